@@ -9,6 +9,7 @@
 //	methods  the methods the generated file declares per type        = model's rendering of the guard table
 //	imports  imports of the generated file after goimports           ⊆ the header the model renders
 //	assert   interfaces asserted at compile time next to the file    = the Lean spec's interface list
+//	overprev the run repeated over a DIFFERENT, longer previous output  = byte-identical to a fresh package
 //	fmt      gofmt -l                                                = clean
 //	build    go build + go vet of the scratch package incl. the assertions = model-level compile conditions
 package main
@@ -115,6 +116,8 @@ func (m *impl) Exec(line string) string {
 		return "sort.Interface"
 	case "fmt":
 		return o.fmt
+	case "overprev":
+		return o.overprev
 	case "build":
 		return o.build
 	}
@@ -163,7 +166,7 @@ func keyOf(d *hx.Disagreement) string {
 	}
 	k := "C13:" + ws[1] + ":" + ws[2]
 	switch ws[2] {
-	case "build", "fmt", "run":
+	case "build", "fmt", "run", "overprev":
 		k += ":" + d.Impl
 	case "methods":
 		// which methods differ
